@@ -177,7 +177,7 @@ def run(case):
                 return out
     # ---- history: two calls on the *same* tracer dictionaries with in-place updates in between
     if case.get('second_call'):
-        shared = {t: dict(v) for t, v in c['tracers'].items()}
+        shared = {t: dict(c['tracers'][t]) for t in HR.tracer_order(c)}
         # ... and on the same halo / particle arrays and parameter dictionary (a fitting loop builds them once)
         inputs = HC.build_inputs(c)
         resA, excA, _ = H.run(lambda: HR.flatten(HR.call(G, c, T, tracers=shared, inputs=inputs)), dict(s, seed=s.get('seed', 0) + 3))
